@@ -10,6 +10,7 @@ import (
 	"runtime"
 	"sort"
 	"strconv"
+	"strings"
 )
 
 type PreHook func(*Zlisp, string, []Sexp)
@@ -643,6 +644,28 @@ func (env *Zlisp) ReturnFromFunction() error {
 	return err
 }
 
+// panicTrace describes the Go call stack of a panic that was just
+// recovered, from the panicking frame down to the function whose name
+// ends in upto, one "function\n\tfile:line" entry per frame. It is called
+// from the deferred function that recovered. Unlike the text of
+// runtime.Stack it contains no goroutine number, argument words or
+// addresses and none of the caller's frames, so that the error text of a
+// failing call is the same on every run.
+func panicTrace(upto string) string {
+	pc := make([]uintptr, 64)
+	n := runtime.Callers(3, pc) // skip Callers, panicTrace and the deferred function
+	frames := runtime.CallersFrames(pc[:n])
+	var b bytes.Buffer
+	for {
+		fr, more := frames.Next()
+		fmt.Fprintf(&b, "%s\n\t%s:%d\n", fr.Function, fr.File, fr.Line)
+		if !more || strings.HasSuffix(fr.Function, upto) {
+			break
+		}
+	}
+	return b.String()
+}
+
 func (env *Zlisp) CallUserFunction(
 	function *SexpFunction, name string, nargs int) (nargReturned int, err error) {
 	//Q("CallUserFunction calling name '%s' with nargs=%v", name, nargs)
@@ -671,15 +694,13 @@ func (env *Zlisp) CallUserFunction(
 	// protect against bad calls/bad reflection in usercalls
 	var wasPanic bool
 	var recovered interface{}
-	var trace []byte
+	var trace string
 	res, err := func() (Sexp, error) {
 		defer func() {
 			recovered = recover()
 			if recovered != nil {
 				wasPanic = true
-				trace = make([]byte, 16384)
-				nbyte := runtime.Stack(trace, false)
-				trace = trace[:nbyte]
+				trace = panicTrace(".CallUserFunction")
 			}
 		}()
 
@@ -693,7 +714,7 @@ func (env *Zlisp) CallUserFunction(
 	if wasPanic {
 		err = fmt.Errorf("CallUserFunction caught panic during call of "+
 			"'%s': '%v'\n stack trace:\n%v\n",
-			name, recovered, string(trace))
+			name, recovered, trace)
 	}
 	if err != nil {
 		env.restoreControlState(callState)
